@@ -173,12 +173,14 @@ def session(draw, max_ops=5, ops_allowed=None, big=True, with_frag=False, with_w
         "dup_clse": draw(st.booleans()),
         "zero_clse_reply": draw(st.booleans()),
     }
-    if dev["cuts"] and total > 100000:
-        need = total // 20000 + 1
-        dev["cuts"] = [max(c, need) for c in dev["cuts"]]
-    if dev["recv_sizes"] and total > 100000:
-        need = total // 5000 + 1
+    # keep the number of device packets per case bounded (a few thousand) whatever the drawn sizes
+    if dev["recv_sizes"]:
+        need = total // 1500 + 1
         dev["recv_sizes"] = [min(65536, max(c, need)) for c in dev["recv_sizes"]]
+    if dev["cuts"]:
+        nrec = total // min(dev["recv_sizes"] or [65536]) + 20
+        need = (total + 8 * nrec) // 2500 + 1
+        dev["cuts"] = [max(c, need) for c in dev["cuts"]]
     tr = {"flavour": draw(flavour())}
     if with_frag:
         tr["frag"] = tame_frag(draw(frag_tape()), total)
